@@ -123,7 +123,10 @@ class C29(Prop):
             "plus uniform random ones, 1-2 tag rows, points shared by index or repeated; a few "
             "sets contain a zero-length segment (error / degenerate behaviour, tie only); about a "
             "third of the sets are translated far from the origin (up to 4096) and scaled by a power "
-            "of two (1/4 .. 1024), int or float dtype; "
+            "of two (1/4 .. 1024), int or float dtype; one case in ten is a LARGE-RATIO set: a segment of "
+            "length 2^16..2^22 (horizontal, vertical, oblique) with 1-3 segments of length 1-4 near its "
+            "start, middle and far end — collinear inside or overhanging, crossing through a lattice "
+            "point, or ending on it — in both index orders; "
             "non-trivial = at least one segment is split or one child is removed as duplicate")
     trusted = ["tol = 1e-8 taken as the rational 1/10^8; implementation floats converted exactly "
                "to Q and compared with the exact model within 1e-9*(1+|x|) inside Coq",
@@ -200,8 +203,47 @@ class C29(Prop):
             return [s, [[a[0] + n[0], a[1] + n[1]], [b[0] + n[0], b[1] + n[1]]]]
         return [s, self._rand_seg(rng, lo, hi)]   # plain pair (mostly a crossing or disjoint)
 
+    def _large_ratio(self, rng):
+        """a long segment (length 2^16..2^22 times a small direction) with short segments of
+        length 1-4 near its start, its middle and its far end: collinear (inside / overhanging the
+        end), crossing through a lattice point of the long one, or ending on it; both index
+        orders.  All true vertices are lattice points (den = 1 in the oracle)."""
+        k = rng.randint(16, 22)
+        L = 2 ** k
+        d = rng.choice([(1, 0), (0, 1), (1, 1), (1, -1), (2, 1), (1, 2), (-1, 0), (0, -1)])
+        A = (rng.randint(-3, 3), rng.randint(-3, 3))
+        pt = lambda m: [A[0] + m * d[0], A[1] + m * d[1]]
+        segs = [[pt(0), pt(L)]]
+        zones = [rng.randint(1, 8), L // 2 + rng.randint(-8, 8), L - rng.randint(1, 8)]
+        rng.shuffle(zones)
+        for m in zones[:rng.randint(1, 3)]:
+            kind = rng.choice(["col", "col", "col", "cross", "tee"])
+            if kind == "col":
+                ln = rng.randint(1, 4)
+                lo = m if rng.random() < 0.7 else m - ln
+                a, b = pt(max(lo, -2)), pt(max(lo, -2) + ln)     # may overhang either end a little
+                segs.append([a, b] if rng.random() < 0.5 else [b, a])
+            else:
+                while True:
+                    v = (rng.randint(-2, 2), rng.randint(-2, 2))
+                    if v[0] * d[1] - v[1] * d[0] != 0:
+                        break
+                P = pt(m)
+                a = [P[0] - v[0], P[1] - v[1]] if kind == "cross" else P
+                segs.append([a, [P[0] + v[0], P[1] + v[1]]])
+        if rng.random() < 0.5:
+            segs = segs[1:] + segs[:1]          # the long one last: it is the "other" of every pair
+        else:
+            rng.shuffle(segs)
+        ntag = rng.choice([0, 1])
+        return {"segs": [[s[0], s[1], [rng.randint(0, 9) for _ in range(ntag)]] for s in segs],
+                "share": rng.random() < 0.5, "float": rng.random() < 0.5, "den": 1}
+
     def generate(self, rng, n, tier):
         for it in range(n):
+            if it % 10 == 3:
+                yield self._large_ratio(rng)
+                continue
             box = rng.choice([(0, 4), (0, 4), (-3, 3), (0, 6)] + ([(-8, 8)] if tier != "quick" else []))
             lo, hi = box
             nseg = rng.randint(2, 8)
@@ -294,7 +336,7 @@ class C29(Prop):
         if "err" in res:
             return f"raised {res['err']} on proper integer segments"
         span = max(max(abs(c) for s in segs for p in s[:2] for c in p), 1)
-        den = 2 * (2 * span) ** 2
+        den = case.get("den") or 2 * (2 * span) ** 2
         edges = []
         sc = F(case.get("scale", 1))
         sh = case.get("shift", [0, 0])
